@@ -9,6 +9,7 @@ import common
 from common import ImplError, cmp_result, impl_call
 
 ID = "C15"
+CASE_TIMEOUT_S = 30     # every case is a handful of integer operations; a loop that does not end is a finding
 LEVEL = "proof"
 RULE = ("kinds: enum (all indices 0..C(n,k)-1 through the real get_combination_at_sorted_index, exhaustive n<=14 "
         "(thorough 18), k<=4, plus k up to 7 for small n); unrank (single index: ends, block boundaries C(m,k)+-1, "
